@@ -65,6 +65,7 @@ inductive Outcome
   | none               -- returns `None`
   | obj                -- returns another hostile object
   | raises (e : Exc)
+  | bytes              -- returns the (undecodable) bytes object `b"\xff"`
   deriving DecidableEq, Repr, Inhabited
 
 /-- kinds of oracle calls, in the order made (the trace) -/
@@ -77,6 +78,9 @@ inductive Val
   | none               -- `None`
   | text (t : Text)    -- a genuine `str`
   | hostile            -- an object all of whose special methods consult the tape
+                       -- (whatever its nominal type: the tie also uses instances of str / bytes / Failure /
+                       -- Exception subclasses with tape-driven methods)
+  | bytes              -- the genuine, undecodable bytes object `b"\xff"` where a text was expected
   deriving DecidableEq, Repr, Inhabited
 
 structure St where
@@ -118,7 +122,7 @@ def noneText : Text := "None".toList
 def mustText (c : Call) : M Text := do
   match ← ask c with
   | .text t => ret t
-  | .none | .obj => raise (plainExc .typeError)     -- "__str__ returned non-string"
+  | .none | .obj | .bytes => raise (plainExc .typeError)     -- "__str__ returned non-string"
   | .raises e => raise e
 
 /-- an oracle answer that is any value (`__getattr__`, `__getitem__`, `__call__`) -/
@@ -128,6 +132,10 @@ def anyVal (c : Call) : M Val := do
   | .none => ret .none
   | .obj => ret .hostile
   | .raises e => raise e
+  | .bytes => ret .bytes
+
+/-- `repr(b"\xff")` = `str(b"\xff")` = `ascii(b"\xff")` -/
+def bytesText : Text := "b'\\xff'".toList
 
 /-- `repr` of a genuine `str` over the tie's alphabet (no quote characters, the only
     non-printable is the newline) -/
@@ -139,11 +147,13 @@ def pyRepr : Val → M Text
   | .none => ret noneText
   | .text t => ret (strRepr t)
   | .hostile => mustText .repr
+  | .bytes => ret bytesText
 
 def pyStr : Val → M Text
   | .none => ret noneText
   | .text t => ret t
   | .hostile => mustText .str
+  | .bytes => ret bytesText
 
 /-- `str(e)` for an exception instance -/
 def excStr (e : Exc) : M Text :=
@@ -181,6 +191,7 @@ def pyFormat (v : Val) (spec : Text) : M Text :=
   | .none => if spec.isEmpty then ret noneText else raise (plainExc .typeError)
   | .text t => strFormat t spec
   | .hostile => mustText .fmt
+  | .bytes => if spec.isEmpty then ret bytesText else raise (plainExc .typeError)   -- object.__format__
 
 def hexDigit (n : Nat) : Char := if n < 10 then Char.ofNat (48 + n) else Char.ofNat (87 + n)
 
@@ -506,6 +517,7 @@ def formatEventInner (ev : Event) : M Text :=
 
 def attrErrNone : Text := "'NoneType' object has no attribute 'getTraceback'".toList
 def attrErrStr : Text := "'str' object has no attribute 'getTraceback'".toList
+def attrErrBytes : Text := "'bytes' object has no attribute 'getTraceback'".toList
 def unableTb : Text := "(UNABLE TO OBTAIN TRACEBACK FROM EVENT):".toList
 
 /-- `failure.getTraceback()`; the result may be a non-text -/
@@ -513,6 +525,7 @@ def getTraceback : Val → M Val
   | .none => raise (plainExc .attributeError attrErrNone)
   | .text _ => raise (plainExc .attributeError attrErrStr)
   | .hostile => anyVal .tb
+  | .bytes => raise (plainExc .attributeError attrErrBytes)
 
 def nonTextTb (typeName : String) : Text :=
   ("getTraceback returned " ++ typeName ++ ", not str").toList
@@ -529,7 +542,8 @@ def formatTraceback (f : Val) : M Text :=
       match ← getTraceback f with
       | .text t => ret t
       | .none => raise (plainExc .typeError (nonTextTb "NoneType"))
-      | .hostile => raise (plainExc .typeError (nonTextTb "H")))     -- `H`: the tie's hostile class
+      | .hostile => raise (plainExc .typeError (nonTextTb "H"))      -- `H`: the tie's hostile class
+      | .bytes => raise (plainExc .typeError (nonTextTb "bytes")))
     (fun e => do
       let t ← safeStrExc e
       ret (unableTb ++ t))
@@ -561,6 +575,7 @@ def formatSystem (ev : Event) : M Text :=
          | .none | some .none => ret (Val.text ['-'])
          | some .hostile => anyVal .getattr          -- level.name
          | some (.text _) => raise (plainExc .attributeError)
+         | some .bytes => raise (plainExc .attributeError)
        let ns := match ev.namespace_ with
          | .none => Val.text ['-']
          | some v => v
@@ -808,6 +823,7 @@ def whyText : Option Val → M Text
   | none | some .none => ret unhandled
   | some (.text t) => if t.isEmpty then ret unhandled else ret t
   | some .hostile => safeStrVal .hostile
+  | some .bytes => safeStrVal .bytes          -- non-empty bytes are true; safe_str: decode fails, then str()
 
 /-- the guarded `eventDict["failure"].getTraceback()` with its "is it text" test -/
 def legacyTraceback (f : Val) : M Text :=
@@ -816,7 +832,8 @@ def legacyTraceback (f : Val) : M Text :=
       match ← getTraceback f with
       | .text t => ret t
       | .none => raise (plainExc .typeError (nonTextTb "NoneType"))
-      | .hostile => raise (plainExc .typeError (nonTextTb "H")))
+      | .hostile => raise (plainExc .typeError (nonTextTb "H"))
+      | .bytes => raise (plainExc .typeError (nonTextTb "bytes")))
     (fun e => do
       let t ← safeStrExc e
       ret (unableLegacyTb ++ t))
